@@ -21,6 +21,8 @@ V6_TAIL = ["::ffff:1.2.3.4", "64:ff9b::10.0.0.1", "1:2:3:4::1.2.3.4", "::1.2.3.4
 V6_TAIL_UNLISTED = ["1::2:1.2.3.4", "1:2:3:4:5:6:1.2.3.4", "2001:db8::a:10.1.2.3"]
 V6_NEAR = ["1:2:3:4:5:6:7", "1:2:3:4:5:6:7:8:9", "12345::1", "g::1", "1::2::3", "00:11:22:33:44:55", "0011.2233.4455", "x2001:db8::1", "2001:db8::1x", "fe80:%x", ":::", "1:::2", "ab:cd", ":1"]
 DELIMS = [" ", "  ", "\t", ",", ";", "(", ")", "[", "]", "{", "}", "\"", "'", "=", "<", ">", "|", "#", "!", "@", "-", "_", "/", "\\", "*", "+", "~", "?"]
+# characters that are letters or digits for Unicode-aware classes (\w, str.isalnum) but not ASCII: still delimiters of an address token
+DELIMS += ["é", "管", "٣", "ª", "№", "ß", "Ω", "²", "١٢"]
 
 
 def mk_line(rng, items, indent=None, term="\n"):
@@ -100,7 +102,7 @@ def v6_tokens(line):
     out = []
     for i, j in runs(line, TOK6):
         t = line[i:j]
-        m = re.match(r"(\.\d{1,3}){3}(?![A-Za-z0-9.])", line[j:])
+        m = re.match(r"(\.[0-9]{1,3}){3}(?![A-Za-z0-9.])", line[j:])        # ASCII digits only: a Unicode digit after the quad is a delimiter
         if m and ":" in t and valid6(t + m.group(0)):
             out.append((i, j + m.end(), int(ipaddress.IPv6Address(t + m.group(0))), "tail"))
         elif valid6(t):
